@@ -83,9 +83,8 @@ func verifC04Rules() {
 		inner.exts = []vExt{innerExts[0], innerExts[1], vVersions(v)}
 	case 7:
 		what = "R7 non-zero padding"
-		p := vByte()
-		vAssume(p != 0)
-		pad[vInt(0, 2)] = p
+		pad = vBytes(3) // any padding that is not all zero (several non-zero bytes included)
+		vAssume(pad[0] != 0 || pad[1] != 0 || pad[2] != 0)
 	case 8:
 		what = "R8a outer-extension list with odd length"
 		class, desc = ErrDecodeError, 50
